@@ -303,7 +303,7 @@ KV_SHAPES = ['k = 1', 'k = "v"', 'k = "a;b,c"', 'k = x', 'k', 'k:? = x', 'k:% = 
 MESSAGES = ['plain', '{} {}', '{name:?}', 'say \\"hi\\"', 'é名😀', 'mid [ref: 12] text', ' leading blank', '\\tleading escape',
             '//host/path', '/* x */ y', '', '{{x}}', 'ends \\\\']
 TRAILING = ['', ', x', ', x, y', ', a = 1', ', "lit"', ',']
-FILLERS = [None, '', ' ', '  ', '\n    ', '\r\n\t', ' /* c */ ', ' /* ; , " */ ', ' // c\n    ', '\n', ' // c\n', ' /* a /* b */ c */ ']
+FILLERS = [None, '', ' ', '  ', '\n    ', '\r\n\t', ' /* c */ ', ' /* ; , " */ ', ' // c\n    ', '\n', ' // c\n', ' /* a /* b */ c */ ', '\x0c', '\u2028', ' \u200e', '\x0b\u0085']
 SITES = ['after_open', 'after_target', 'after_kv_comma', 'after_semi', 'before_sep', 'before_close']
 CTX_BEFORE = ['', '  ', '\t', '{ ', '; ', '=> ', 'return ', 'break ', 'let _ = ', 'x = ', '} else { ', '|e| ', 'foo(); ', '/* c */ ',
               '"s" ', 'é; ', "let c = '\"'; ", "m(b'\"'); ", 'let r = r#"x"y"#; ']
